@@ -387,4 +387,61 @@ theorem modInv_complete (a m : Int) (ha : 0 < a) (hm : 2 ≤ m) (h : modInv a m 
       intro hz; rw [hz] at h4; simp at h4
     omega
 
+/-! ### bitwise: 256-bit two's complement -/
+
+theorem toU256_lt (n : Int) : toU256 n < 2^256 := by
+  unfold toU256
+  have h0 : 0 ≤ n % (2:Int)^256 := Int.emod_nonneg n (by decide)
+  have h1 : n % (2:Int)^256 < (2:Int)^256 := Int.emod_lt_of_pos n (by decide)
+  omega
+
+theorem ofU256_inRange (x : Nat) (h : x < 2^256) : inRange (ofU256 x) = true := by
+  unfold ofU256 inRange
+  simp only [Bool.and_eq_true, decide_eq_true_eq]
+  split <;> omega
+
+theorem toU256_ofU256 (x : Nat) (h : x < 2^256) : toU256 (ofU256 x) = x := by
+  unfold ofU256 toU256
+  split
+  · rename_i hx
+    rw [Int.emod_eq_of_lt (by omega) (by omega)]; omega
+  · rename_i hx
+    have : ((x : Int) - (2:Int)^256) % (2:Int)^256 = (x : Int) := by
+      rw [Int.sub_emod_right]
+      exact Int.emod_eq_of_lt (by omega) (by omega)
+    rw [this]; omega
+
+/-- two's complement image: `toU256 n ≡ n (mod 2^256)`, and it is the identity on `[0, 2^255)`. -/
+theorem toU256_mod (n : Int) : ((toU256 n : Nat) : Int) = n % (2:Int)^256 := by
+  unfold toU256
+  have h0 : 0 ≤ n % (2:Int)^256 := Int.emod_nonneg n (by decide)
+  omega
+
+theorem andI_spec (a b : Int) : inRange (andI a b) = true ∧ toU256 (andI a b) = toU256 a &&& toU256 b := by
+  have hlt : toU256 a &&& toU256 b < 2^256 := Nat.and_lt_two_pow _ (toU256_lt b)
+  exact ⟨ofU256_inRange _ hlt, toU256_ofU256 _ hlt⟩
+
+theorem orI_spec (a b : Int) : inRange (orI a b) = true ∧ toU256 (orI a b) = toU256 a ||| toU256 b := by
+  have hlt : toU256 a ||| toU256 b < 2^256 := Nat.or_lt_two_pow (toU256_lt a) (toU256_lt b)
+  exact ⟨ofU256_inRange _ hlt, toU256_ofU256 _ hlt⟩
+
+theorem xorI_spec (a b : Int) : inRange (xorI a b) = true ∧ toU256 (xorI a b) = toU256 a ^^^ toU256 b := by
+  have hlt : toU256 a ^^^ toU256 b < 2^256 := Nat.xor_lt_two_pow (toU256_lt a) (toU256_lt b)
+  exact ⟨ofU256_inRange _ hlt, toU256_ofU256 _ hlt⟩
+
+/-- INVERT = bitwise complement in 256-bit two's complement. -/
+theorem notI_spec (a : Int) (h : inRange a = true) :
+    inRange (notI a) = true ∧ toU256 (notI a) = 2^256 - 1 - toU256 a := by
+  unfold inRange at h
+  simp only [Bool.and_eq_true, decide_eq_true_eq] at h
+  constructor
+  · unfold notI inRange; simp only [Bool.and_eq_true, decide_eq_true_eq]; omega
+  · have h1 := toU256_mod (notI a)
+    have h2 := toU256_mod a
+    have h3 := toU256_lt (notI a)
+    have h4 := toU256_lt a
+    unfold notI at *
+    omega
+
+
 end NeoModel.Vm
